@@ -93,7 +93,7 @@ func refTagName(re *regexp.Regexp, key string) string {
 
 func (c13) Run(e *Env) {
 	e.ProbeDecl("lookup-hit", "lookup-miss", "ip-reused-by-other-pod", "phase-only-update", "deletion-timestamp-update", "label-edit", "annotation-edit", "ip-changed", "ip-unset", "delete", "lookup-before-pod-exists",
-		"host-network-pod", "tag-group-empty-falls-back-to-key", "regex-without-group", "via-ipsink", "racing-lookup", "partition", "tombstone-delete-after-relist", "changed-while-partitioned", "key-swapped-in-one-update", "two-changes-in-one-race-window")
+		"host-network-pod", "tag-group-empty-falls-back-to-key", "regex-without-group", "via-ipsink", "racing-lookup", "partition", "tombstone-delete-after-relist", "changed-while-partitioned", "key-swapped-in-one-update", "two-changes-in-one-race-window", "informer-resync")
 	labelRes := []string{"", "^app$", "^(?:app|team/(?P<tag>.+))$", "^tier(?P<tag>.*)$", "^nomatch$", "^team/(.+)$"}
 	annRes := []string{k8s.DefaultAnnotationTagRegex, "", "^gostatsd\\.atlassian\\.com/(?P<tag>.*)$", "^note$", "^(?P<tag>x)?note$"}
 	lr, ar := labelRes[e.Draw(len(labelRes))], annRes[e.Draw(len(annRes))]
@@ -327,6 +327,7 @@ func (c13) Run(e *Env) {
 		observed = nil
 		e.Overlap = true
 	}
+	resynced := false
 	nSteps := e.Range(3, 25)
 	for step := 0; step < nSteps; step++ {
 		e.Settle()
@@ -354,7 +355,18 @@ func (c13) Run(e *Env) {
 		if observed != nil {
 			canHeal = 2
 		}
-		switch e.Weighted("c13", []int{canAdd, 4 * minInt(1, len(names)), 1 * minInt(1, len(names)), 5, canCut, canHeal}) {
+		canResync := 0
+		if observed == nil && !resynced && len(names) > 0 {
+			canResync = 1
+		}
+		switch e.Weighted("c13", []int{canAdd, 4 * minInt(1, len(names)), 1 * minInt(1, len(names)), 5, canCut, canHeal, canResync}) {
+		case 6:
+			// the informer's periodic resync (5 min) replays every pod to the handlers as an update
+			resynced = true
+			e.Probe("informer-resync")
+			e.Event("6 minutes pass (informer resync)")
+			time.Sleep(6 * time.Minute)
+			e.Settle()
 		case 4:
 			// cut the link: the provider keeps answering from what it had observed
 			observed = map[string]*c13Pod{}
